@@ -32,3 +32,24 @@ def show(v):
             return a["w"] + (":" + a["cs"] if a["cs"] else "")
         return a["s"]
     return " ".join([v["name"]] + [t(a) for a in v["args"]])
+
+
+def concurrent_slow(variant, nconns=4, nreq=12):
+    """Several connections answered at the same time through a slow transport (sconn.slow): a reply must not change between the
+    moment it is built and the moment the transport has taken it, and must reach the connection whose request it answers."""
+    steps = []
+    for c in range(nconns):
+        reqs = []
+        for i in range(nreq):
+            size = [1, 7, 64, 300, 1500, 5000][(i + c + variant) % 6]
+            raw = tok("raw")
+            raw["raw"] = [97 + c] * size
+            reqs.append({"cls": "conc", "name": "ECHO", "args": [raw]})
+            if i % 3 == 0:
+                reqs.append({"cls": "conc", "name": "MGET", "args": [tok("key", "k1"), tok("key", "k2")]})
+            if i % 4 == 1:
+                reqs.append({"cls": "conc", "name": "CONFIG", "args": [tok("word", w="GET"), raw]})
+            if i % 4 == 2:
+                reqs.append({"cls": "conc", "name": "SET", "args": [tok("key", "k1"), raw]})
+        steps.append({"c": c, "op": "send", "chunking": "perreq", "reqs": reqs})
+    return {"handler": "rec", "nconns": nconns, "concurrent": True, "slowwrite": True, "steps": steps}
